@@ -625,6 +625,61 @@ func streamMutants(ctx *Ctx) *Result {
 			res.Sample(src)
 		}
 	})
+	// where an assignment may stand: only at the start of an expression, of a
+	// parenthesis or of another assignment's right side - after any operator, prefix
+	// or infix, `name = …` is an invalid assignment target
+	binops := []string{"or", "and", "==", "!=", "<", "<=", ">", ">=", "+", "-", "*", "/"}
+	preops := []string{"not", "-", "+"}
+	parallel(ctx.Pool, ctx.Seed+5, ctx.N(400), func(i int, r *rand.Rand, d *Driver) {
+		names := []string{"a", "b", "c"}
+		pickN := func() string { return names[r.Intn(3)] }
+		rhs := []string{"1", "b", `"s"`, "(c = 2)", "not a"}[r.Intn(5)]
+		lhs := []string{"a", "1", "(a)", "a + 1", `"s"`, "not b"}[r.Intn(6)]
+		op := binops[r.Intn(len(binops))]
+		var e string
+		var want bool
+		switch r.Intn(8) {
+		case 0: // operand of an infix operator
+			e, want = fmt.Sprintf("%s %s %s = %s", lhs, op, pickN(), rhs), false
+		case 1: // the same, parenthesised
+			e, want = fmt.Sprintf("%s %s (%s = %s)", lhs, op, pickN(), rhs), true
+		case 2: // operand of a prefix operator
+			e, want = fmt.Sprintf("%s %s = %s", preops[r.Intn(3)], pickN(), rhs), false
+		case 3:
+			e, want = fmt.Sprintf("%s (%s = %s)", preops[r.Intn(3)], pickN(), rhs), true
+		case 4: // chains
+			e, want = fmt.Sprintf("%s = %s = %s", pickN(), pickN(), rhs), true
+		case 5: // assignment to something that is not a bare name
+			e, want = fmt.Sprintf("%s = %s", []string{"(a)", "1", "a + b", `"s"`, "not a", "a or b"}[r.Intn(6)], rhs), false
+		case 6: // after a complete operand chain
+			e, want = fmt.Sprintf("%s = %s %s %s = %s", pickN(), lhs, op, pickN(), rhs), false
+		default:
+			e, want = fmt.Sprintf("%s = %s %s %s", pickN(), lhs, op, rhs), true
+		}
+		var src string
+		switch r.Intn(4) {
+		case 0:
+			src = "var a = 1\nvar b = 2\nvar c\neval " + e + "\n"
+		case 1:
+			src = "var a = 1; var b = 2; var c = 3; print " + e
+		case 2:
+			src = "var a; var b; var c\nvar z = " + e + "\n"
+		default:
+			src = "def t {\n a = 1\n b = 2\n c = 3\n " + e + "\n}\n"
+		}
+		acc, ok := oracle([]byte(src))
+		if !ok {
+			return
+		}
+		res.Count(fmt.Sprintf("assign-position.want=%v", want), 1)
+		res.Nontrivial(src)
+		if acc != want {
+			res.Fail(Failure{Kind: "oracle", Op: "assignment position", Input: src, Impl: fmt.Sprintf("accepted=%v", acc),
+				Expected: fmt.Sprintf("accepted=%v: an assignment may stand only at the start of an expression, of a parenthesis or of another assignment's right side, and only to a bare name", want)})
+			return
+		}
+		diffParseRun(res, d, []byte(src), false)
+	})
 	return res
 }
 
